@@ -10,6 +10,8 @@ use slice_codec::ErrorKind;
 use std::panic::{catch_unwind, AssertUnwindSafe};
 
 const CANARY: usize = 32;
+/// stale bytes left behind the contents of the recycled growable target
+const STALE_SPARE: usize = 96;
 
 fn fnv1a(bs: &[u8]) -> u64 {
     let mut h: u64 = 0xcbf29ce484222325;
@@ -94,6 +96,7 @@ pub fn run_hist(target: &str, ops_s: &str, expected: &str) -> CaseResult {
     let mut oracle = None;
     let r = catch_unwind(AssertUnwindSafe(|| {
         let mut obs: Vec<String> = vec![];
+        let mut stale_diff: Option<String> = None;
         if let Some(init_s) = target.strip_prefix("slice:") {
             let init = unhex(init_s).unwrap_or_default();
             let cap = init.len();
@@ -116,20 +119,40 @@ pub fn run_hist(target: &str, ops_s: &str, expected: &str) -> CaseResult {
                     obs.push(format!("{}@{}:{}", o, pos, show_buf(&all[CANARY..CANARY + cap])));
                 }
             }
-            (obs, canary_broken)
+            (obs, canary_broken, stale_diff)
         } else {
             let init = unhex(target.strip_prefix("vec:").unwrap_or("-")).unwrap_or_default();
-            let mut v = init.clone();
-            let mut res = vec![];
-            for op in ops.iter() {
-                let o = { let mut t = VecOutputTarget::from(&mut v); step(&mut t, &mut res, op) };
-                obs.push(format!("{}@{}", o, show_buf(&v)));
+            // The growable target is exercised from two legal initial states of the same contents: a Vec whose
+            // capacity equals its length, and a recycled Vec whose spare capacity still holds stale non-zero bytes
+            // (`clear()` / `truncate()` keep the allocation). The property does not depend on the spare capacity, so
+            // both must produce the model's observations; the second is what exposes a reservation that is not zeroed.
+            let run_from = |mut v: Vec<u8>| -> Vec<String> {
+                let mut obs: Vec<String> = vec![];
+                let mut res = vec![];
+                for op in ops.iter() {
+                    let o = { let mut t = VecOutputTarget::from(&mut v); step(&mut t, &mut res, op) };
+                    obs.push(format!("{}@{}", o, show_buf(&v)));
+                }
+                obs
+            };
+            let clean = run_from(init.clone());
+            let mut stale = vec![0xA5u8; init.len() + STALE_SPARE];
+            stale[..init.len()].copy_from_slice(&init);
+            stale.truncate(init.len());
+            let dirty = run_from(stale);
+            if clean != dirty {
+                let n = (0..clean.len().max(dirty.len())).find(|i| clean.get(*i) != dirty.get(*i)).unwrap_or(0);
+                stale_diff = Some(format!(
+                    "growable target with stale spare capacity behaves differently after operation {}: exact-capacity Vec {} / recycled Vec {}",
+                    n, clean.get(n).map(String::as_str).unwrap_or("<none>"), dirty.get(n).map(String::as_str).unwrap_or("<none>")));
             }
-            (obs, None)
+            obs = clean;
+            (obs, None, stale_diff)
         }
     }));
     let actual = match r {
-        Ok((obs, canary)) => {
+        Ok((obs, canary, stale)) => {
+            if let Some(d) = stale { oracle = Some(d); }
             if let Some(n) = canary { oracle = Some(format!("operation {} wrote outside the target's slice (canary overwritten)", n)); }
             obs.join(",")
         }
